@@ -5,7 +5,9 @@ package main
 // random, a chronological merge of several fields' schedules (not grouped by field), or grouped blocks.
 
 import (
+	"fmt"
 	"sort"
+	"strings"
 
 	"verifharness/proj"
 	"verifharness/vh"
@@ -111,6 +113,14 @@ func genC10Schedules(r *vh.Rng, p *proj.Project, k int, table []fertRow, s0, las
 			zero["irr"][0] = true
 		case 9, 10, 11: // chronological merge of three fields in all three files
 			mode = [3]int{1, 1, 1}
+		case 12: // a tillage dated exactly on the first simulated day (not "before the start": it is executed), then another one
+			forced["til"] = []int{s0, s0 + 6}
+		case 13: // an irrigation dated exactly on the first simulated day
+			forced["irr"] = []int{s0, s0 + 4}
+		case 14: // tillage on the eve of the start (dropped) and on the start day (kept)
+			forced["til"] = []int{s0 - 1, s0}
+		case 15: // irrigation on the eve of the start (dropped) and on the start day (kept), different concentrations
+			forced["irr"] = []int{s0 - 1, s0, s0 + 1}
 		}
 	}
 	pick := func(kind string, gen []int) []int {
@@ -125,7 +135,7 @@ func genC10Schedules(r *vh.Rng, p *proj.Project, k int, table []fertRow, s0, las
 
 	// ---- fertiliser
 	cleanF := clean || r.Chance(0.6)
-	for j, z := range pick("fert", walkDates(r, s0, last, 2, cleanF, r.Intn(4)*r.Intn(2), r.Intn(3), r.Range(0, 24), r.Range(2, 40))) {
+	for j, z := range c10Pin(r, p, pick("fert", walkDates(r, s0, last, 2, cleanF, r.Intn(4)*r.Intn(2), r.Intn(3), r.Range(0, 24), r.Range(2, 40))), s0, last, len(forced["fert"]) > 0 || clean, true) {
 		row := table[(k*5+j*3+r.Intn(2))%len(table)]
 		a := 10 + 4*j + r.Intn(4)
 		if isZero("fert", j) {
@@ -145,12 +155,16 @@ func genC10Schedules(r *vh.Rng, p *proj.Project, k int, table []fertRow, s0, las
 	if r.Chance(0.35) {
 		preIrr = 1 + r.Intn(2)
 	}
-	for j, z := range pick("irr", walkDates(r, s0, last, 1, false, preIrr, r.Intn(3), r.Range(0, 14), r.Range(2, 40))) {
+	for j, z := range c10Pin(r, p, pick("irr", walkDates(r, s0, last, 1, false, preIrr, r.Intn(3), r.Range(0, 14), r.Range(2, 40))), s0, last, len(forced["irr"]) > 0 || clean, false) {
 		a := 3 + 2*j + r.Intn(2)
 		if isZero("irr", j) {
 			a = 0
 		}
-		s.IrrOwn = append(s.IrrOwn, schedEv{Z: z, Date: iso(z), Own: true, A: a, B: r.Intn(40) * r.Intn(2)})
+		conc := r.Intn(40) * r.Intn(2)
+		if k == 15 && !clean {
+			conc = 7 + 11*j // the concentrations of the dropped and of the kept lines all differ
+		}
+		s.IrrOwn = append(s.IrrOwn, schedEv{Z: z, Date: iso(z), Own: true, A: a, B: conc})
 	}
 	s.IrrAll = layoutLines(r, mode[1], s.IrrOwn, s0, last, [2]string{p.Field + "x", "ZZ9"}, func(z int, f string) schedEv {
 		return schedEv{Z: z, Date: iso(z), A: r.Range(0, 60), B: r.Intn(30), Field: f}
@@ -176,7 +190,8 @@ func genC10Schedules(r *vh.Rng, p *proj.Project, k int, table []fertRow, s0, las
 			if isZero("til", j) || (len(forced["til"]) == 0 && r.Chance(0.06)) {
 				a = 0
 			}
-			s.TilOwn = append(s.TilOwn, schedEv{Z: z, Date: iso(z), Own: true, A: a, B: r.Range(1, 2)})
+			// type 1 mixes the layers, every other type (0, 2, 3 ...) only logs the event
+			s.TilOwn = append(s.TilOwn, schedEv{Z: z, Date: iso(z), Own: true, A: a, B: []int{1, 2, 1, 2, 1, 2, 0, 3}[r.Intn(8)]})
 		}
 	}
 	// the slot dates after the same-day shift must stay outside the crops as well
@@ -210,4 +225,67 @@ func genC10Schedules(r *vh.Rng, p *proj.Project, k int, table []fertRow, s0, las
 		s.Layout[i] = names[mode[i]]
 	}
 	return s
+}
+
+// c10Pin moves single events of a drawn date list onto days on which something else happens in the run:
+// sowing and harvest days of the rotation, the day before / of / after the annual output date, the last
+// simulated day and the day before it. An event is moved only when the list stays ascending with the
+// same multiplicities (no new same-day pair, no new consecutive-day neighbour: the classes of the known
+// findings are left to walkDates). Fertiliser lists are not pinned to the start day (known finding).
+func c10Pin(r *vh.Rng, p *proj.Project, dates []int, s0, last int, keep, isFert bool) []int {
+	if keep || len(dates) == 0 || !r.Chance(0.5) {
+		return dates
+	}
+	var targets []int
+	for i := 1; i < len(p.Rot); i++ {
+		targets = append(targets, p.Rot[i].Sow.Z(), p.Rot[i].Harvest.Z())
+	}
+	ann := strings.Trim(p.Cfg["AnnualOutputDate"], "\"")
+	if len(ann) == 4 {
+		var a, b int
+		fmt.Sscanf(ann, "%2d%2d", &a, &b)
+		d, m := a, b
+		if p.DateFmt >= 2 {
+			d, m = b, a
+		}
+		for y := proj.FromZ(s0).Y; y <= proj.FromZ(last).Y; y++ {
+			if m >= 1 && m <= 12 && d >= 1 && d <= 28 {
+				z := proj.Date{Y: y, M: m, D: d}.Z()
+				targets = append(targets, z-1, z, z+1)
+			}
+		}
+	}
+	targets = append(targets, last, last-1)
+	if !isFert {
+		targets = append(targets, s0)
+	}
+	out := append([]int(nil), dates...)
+	for n := 0; n < 3; n++ {
+		t := targets[r.Intn(len(targets))]
+		if t < s0 || t > last || (isFert && t <= s0+1) {
+			continue
+		}
+		// the event to move: the first one not before the target, else the last one
+		j := len(out) - 1
+		for i, z := range out {
+			if z >= t {
+				j = i
+				break
+			}
+		}
+		if out[j] < s0 {
+			continue
+		}
+		lo, hi := s0-1, last+400
+		if j > 0 {
+			lo = out[j-1]
+		}
+		if j+1 < len(out) {
+			hi = out[j+1]
+		}
+		if t > lo+1 && t < hi-1 {
+			out[j] = t
+		}
+	}
+	return out
 }
